@@ -177,6 +177,39 @@ def render_expr(e, lang, sp):
     raise ValueError(t)
 
 
+def strip_outer(text):
+    """a top-level expression does not need its outermost parentheses: `(x or y)` -> `x or y` (what users write)"""
+    if len(text) >= 2 and text[0] == '(' and text[-1] == ')':
+        depth = 0
+        in_str = None
+        i = 0
+        while i < len(text):
+            ch = text[i]
+            if in_str:
+                if ch == '\\':
+                    i += 1
+                elif ch == in_str:
+                    in_str = None
+            elif ch in '"\'':
+                in_str = ch
+            elif ch == '(':
+                depth += 1
+            elif ch == ')':
+                depth -= 1
+                if depth == 0 and i != len(text) - 1:
+                    return text
+            i += 1
+        return text[1:-1]
+    return text
+
+
+def render_top(e, lang, sp):
+    t = render_expr(e, lang, sp)
+    if sp.rnd is None or sp.rnd.random() < 0.7:
+        return strip_outer(t)
+    return t
+
+
 def render_item(it, lang, sp):
     if it == 'star':
         return '*'
@@ -194,7 +227,7 @@ def render_item(it, lang, sp):
         if it['agg'] == 'count' and it['e'] == ['lit', {'n': [1, 1]}] and sp.coin(0.5):
             return '%s(*)' % name
         return '%s(%s)' % (name, render_expr(it['e'], lang, sp))
-    txt = render_expr(it['e'], lang, sp)
+    txt = render_top(it['e'], lang, sp)
     if it.get('alias'):
         txt += ' %s %s' % (sp.rnd.choice(['AS', 'as']) if sp.rnd else 'as', it['alias'])
     return txt
@@ -206,7 +239,7 @@ def render_join_key(side, k, sp):
     return '%s%d' % (side, k + 1) if not sp.coin(0.3) else '%s[%d]' % (side, k + 1)
 
 
-def render_query(q, lang, rnd=None, header_a=None, header_b=None, join_table='b', shuffle_clauses=False):
+def render_query(q, lang, rnd=None, header_a=None, header_b=None, join_table='b', shuffle_clauses=False, layout=False):
     """abstract query -> RBQL text. rnd=None gives the canonical spelling."""
     sp = Spelling(rnd, header_a, header_b)
     clauses = []
@@ -219,7 +252,7 @@ def render_query(q, lang, rnd=None, header_a=None, header_b=None, join_table='b'
             head += sp.sp() + sp.kw('SET')
         assigns = []
         for idx, rhs in q['assigns']:
-            assigns.append('%s = %s' % (sp.field('a', idx) if not sp.coin(0.0) else 'a%d' % (idx + 1), render_expr(rhs, lang, sp)))
+            assigns.append('%s = %s' % (sp.field('a', idx) if not sp.coin(0.0) else 'a%d' % (idx + 1), render_top(rhs, lang, sp)))
         head += sp.sp() + ', '.join(assigns)
     else:
         head = sp.kw('SELECT')
@@ -256,11 +289,11 @@ def render_query(q, lang, rnd=None, header_a=None, header_b=None, join_table='b'
         andkw = ' %s ' % (sp.kw('and') if lang == 'py' else sp.kw('and'))
         clauses.append('%s%s%s%s%s%s%s' % (' '.join(sp.kw(w) for w in name.split(' ')), sp.sp(), join_table, sp.sp(), sp.kw('ON'), sp.sp(), andkw.join(pairs)))
     if q.get('where') is not None:
-        clauses.append(sp.kw('WHERE') + sp.sp() + render_expr(q['where'], lang, sp))
+        clauses.append(sp.kw('WHERE') + sp.sp() + render_top(q['where'], lang, sp))
     if q.get('group') is not None:
-        clauses.append(' '.join(sp.kw(w) for w in ['GROUP', 'BY']) + sp.sp() + ', '.join(render_expr(e, lang, sp) for e in q['group']))
+        clauses.append(' '.join(sp.kw(w) for w in ['GROUP', 'BY']) + sp.sp() + ', '.join(render_top(e, lang, sp) for e in q['group']))
     if q.get('order') is not None:
-        txt = ' '.join(sp.kw(w) for w in ['ORDER', 'BY']) + sp.sp() + ', '.join(render_expr(e, lang, sp) for e in q['order'])
+        txt = ' '.join(sp.kw(w) for w in ['ORDER', 'BY']) + sp.sp() + ', '.join(render_top(e, lang, sp) for e in q['order'])
         if q.get('desc'):
             txt += sp.sp() + sp.kw('DESC')
         elif sp.coin(0.3):
@@ -269,8 +302,14 @@ def render_query(q, lang, rnd=None, header_a=None, header_b=None, join_table='b'
     if shuffle_clauses and rnd is not None:
         rnd.shuffle(clauses)
     text = head
+    seps = [' ', '\n', '\n    ', ' \n# where a1 == 5 select *\n ', '\t', '  \n\n  ', '\n#;\n']
     for c in clauses:
-        text += sp.sp() + c
+        text += (rnd.choice(seps) if (layout and rnd is not None) else sp.sp()) + c
+    if layout and rnd is not None:
+        if not q.get('update') and rnd.random() < 0.25 and q.get('except') is None:
+            # a redundant FROM a right after the select list is only valid before the other clauses: put it first
+            pass
+        text = rnd.choice(['', ' ', '\n', '# leading comment\n']) + text + rnd.choice(['', ';', ' ;', ';;', '\n', ' \n;'])
     return text
 
 # ----------------------------------------------------------------------------------------- generators
